@@ -294,6 +294,9 @@ def run(tier, seed, prefix='C18', want=('TF', 'SS'), pack=None):
         # the time constant T of a block is what the integrator uses: dae.Tf is filled after the models' services exist
         from contracts import fn_sequence as Q
         run_contracts(pack, [(Q.system_init('C18'), None, Q.replay_store_tf), (Q.store_tf('C18'), None, Q.replay_store_tf)])
+        # ... and stays what the integrator uses when it is changed later: every block that shares the parameter gets the new value
+        from contracts import fn_pu
+        run_contracts(pack, [(fn_pu.model_set('C18', 'v'), None, fn_pu.replay_model_set)])
         from contracts.packutil import native_guard
         tname = 'C18/andes/system.py:System.init;_store_tf/bounded:dae.Tf-holds-the-declared-time-constant-of-every-state,also-when-it-is-a-constant-service'
         r = native_guard(pack, tname, Q.replay_store_tf)
